@@ -92,7 +92,10 @@ TASK_COMMON = '''
     /// single-worker task contract, shape (n, c, mine): worker 0 receives exactly the blocks k with mine[k]
     fn task_setup<'a>(log: &'a Log, n: usize, c: usize, mine: [bool; MAXN]) -> (ModelIter<'a>, [u8; MAXN], Cl<'a>) {
         let (it, data) = single_worker_iter(log, n, c, mine);
-        (it, data, Cl::any(log))
+        let cl = Cl::any(log);
+        // {ltnote}
+        kani::assume(cl.lt[0] <= {ltmax} && cl.lt[1] <= {ltmax} && cl.lt[2] <= {ltmax} && cl.lt[3] <= {ltmax});
+        (it, data, cl)
     }
 
     fn pull_log_ok(log: &Log) {
@@ -108,34 +111,36 @@ TASK_COL = '''
         let f0 = cl.{f0}();
         let f1 = cl.fil();
         let got = task(&it, &f0, &f1, c);
-        let mut j = 0;
-        let mut i = 0;
+        // (the result vector is only ever indexed with concrete indices: symbolic indexing into the heap
+        // object makes CBMC's post-processing explode)
+        let (exp, keys, m) = worker_outputs(&cl, Kind::{kind}, data, n, c, mine);
+        assert!(got.len() == m, "C01: the worker's result has missing or extra elements");
+        let mut g = 0;
+        while g < {maxout} {
+            if g < m {
+                assert!(got[g].0 == {keyexpr}, "C01: key is not the source position (keys must be strictly increasing per worker)");
+                assert!(got[g].1 == exp[g], "C01: wrong value");
+            }
+            g += 1;
+        }
         let mut rejected = false;
+        let mut i = 0;
         while i < n {
             if mine[i / c] {
-                let (out, cnt) = cl.expand(Kind::{kind}, i as u8, data[i]);
-                assert!(log.calls(ST_MAP, i) == 1, "C05: first-stage closure not called exactly once on a delivered element");
-                assert!(log.calls(ST_FIL, i) == cl.fil_calls(Kind::{kind}, data[i]), "C05: filter call count differs from the sequential chain");
+                let (_o, cnt) = cl.expand(Kind::{kind}, i as u8, data[i]);
                 if cnt == 0 {
                     rejected = true;
                 }
-                let mut q = 0;
-                while q < cnt {
-                    assert!(j < got.len(), "C01: a surviving element is missing from the worker's result");
-                    assert!(got[j].0 == {keyexpr}, "C01: key is not the source position");
-                    assert!(got[j].1 == out[q], "C01: wrong value");
-                    j += 1;
-                    q += 1;
-                }
+                assert!(log.calls(ST_MAP, i) == 1, "C05: first-stage closure not called exactly once on a delivered element");
+                assert!(log.calls(ST_FIL, i) == cl.fil_calls(Kind::{kind}, data[i]), "C05: filter call count differs from the sequential chain");
             } else {
                 assert!(log.calls(ST_MAP, i) == 0 && log.calls(ST_FIL, i) == 0, "C05: closure called on an element delivered to another worker");
             }
             i += 1;
         }
-        assert!(j == got.len(), "C01: the worker's result has extra elements");
         pull_log_ok(&log);
         kani::cover!(rejected);
-        kani::cover!(j >= 1);
+        kani::cover!(m >= 1);
     }
 '''
 
@@ -146,43 +151,52 @@ TASK_COLX = '''
         let f0 = cl.{f0}();
         let f1 = cl.fil();
         let got = task(&it, &f0, &f1, c);
+        let (exp, _keys, m) = worker_outputs(&cl, Kind::{kind}, data, n, c, mine);
+        assert!(got.len() == m, "C07: the worker's result has missing, extra or duplicated elements");
+        // copy with concrete indices, then compare as multisets
+        let mut flat = [E { p: 0, v: 0 }; 8];
+        let mut g = 0;
+        while g < {maxout} {
+            if g < m {
+                flat[g] = got[g];
+            }
+            g += 1;
+        }
         let mut used = [false; 8];
-        let mut total = 0;
-        let mut i = 0;
+        let mut j = 0;
+        while j < {maxout} {
+            if j < m {
+                let mut found = false;
+                let mut g = 0;
+                while g < {maxout} {
+                    if g < m && !found && !used[g] && flat[g] == exp[j] {
+                        used[g] = true;
+                        found = true;
+                    }
+                    g += 1;
+                }
+                assert!(found, "C07: a surviving element is missing from the worker's result");
+            }
+            j += 1;
+        }
         let mut rejected = false;
+        let mut i = 0;
         while i < n {
             if mine[i / c] {
-                let (out, cnt) = cl.expand(Kind::{kind}, i as u8, data[i]);
-                assert!(log.calls(ST_MAP, i) == 1, "C05: first-stage closure not called exactly once on a delivered element");
-                assert!(log.calls(ST_FIL, i) == cl.fil_calls(Kind::{kind}, data[i]), "C05: filter call count differs from the sequential chain");
+                let (_o, cnt) = cl.expand(Kind::{kind}, i as u8, data[i]);
                 if cnt == 0 {
                     rejected = true;
                 }
-                let mut q = 0;
-                while q < cnt {
-                    // multiset inclusion: find an unused equal element
-                    let mut found = false;
-                    let mut g = 0;
-                    while g < got.len() && g < 8 {
-                        if !found && !used[g] && got[g] == out[q] {
-                            used[g] = true;
-                            found = true;
-                        }
-                        g += 1;
-                    }
-                    assert!(found, "C07: a surviving element is missing from the worker's result");
-                    total += 1;
-                    q += 1;
-                }
+                assert!(log.calls(ST_MAP, i) == 1, "C05: first-stage closure not called exactly once on a delivered element");
+                assert!(log.calls(ST_FIL, i) == cl.fil_calls(Kind::{kind}, data[i]), "C05: filter call count differs from the sequential chain");
             } else {
                 assert!(log.calls(ST_MAP, i) == 0 && log.calls(ST_FIL, i) == 0, "C05: closure called on an element delivered to another worker");
             }
             i += 1;
         }
-        assert!(total == got.len(), "C07: the worker's result has extra or duplicated elements");
         pull_log_ok(&log);
         kani::cover!(rejected);
-        kani::cover!(total >= 1);
+        kani::cover!(m >= 1);
     }
 '''
 
@@ -350,7 +364,9 @@ GLUE_COMMON = """
         it.cut = cut;
         // the same shapes are run with a source of unknown length (try_get_len() == None): harness name suffix `_u`
         it.known_len = unsafe { UNKNOWN_LEN } != UNKNOWN_YES;
-        (it, data, Cl::any(log), par_params(2, c))
+        let cl = Cl::any(log);
+        kani::assume(cl.lt[0] <= {ltmax} && cl.lt[1] <= {ltmax} && cl.lt[2] <= {ltmax} && cl.lt[3] <= {ltmax});
+        (it, data, cl, par_params(2, c))
     }
 
     fn glue_common_post(log: &Log, params: Params, n: usize) {
@@ -542,7 +558,7 @@ def gen_glue(kernel, body):
     findcheck = ('assert!(g.0 == exp[0].p as usize && g.1 == exp[0], "C02: not the first match in source order (or wrong index)");'
                  if kernel != 'flatmap_fil_find' else
                  'assert!(g == exp[0], "C02: not the first match in source order");')
-    body.append(GLUE_COMMON)
+    body.append(_fill(GLUE_COMMON, ltmax=('2' if (k['kind'] == 'FLF' and fam == 'col') else '1')))
     body.append(_fill(GLUE_TEMPLATES[fam], f0=k['f0'], kind=k['kind'], entry=entry, findcheck=findcheck))
     shapes = FLAT_GLUE_SHAPES if k['kind'] == 'FLF' else (COL_GLUE_SHAPES if fam in ('col', 'colx') else GLUE_SHAPES)
     for (n, c, owner, tier) in shapes:
@@ -559,7 +575,7 @@ def gen_glue(kernel, body):
             if kernel == 'flatmap_fil_col_x':
                 t2 = 'thorough'
             name = 'k_glue_%s_n%dc%d_o%s%s' % (kernel, n, c, ''.join(str(x) for x in owner) or 'e', ('_f%d' % cut) if cut is not None else '')
-            outs = (2 * n) if k['kind'] == 'FLF' else n
+            outs = (2 * n) if (k['kind'] == 'FLF' and fam == 'col') else n
             unwind = max(n, outs, 2) + 2
             args = '%d, %d, %s' % (n, c, _owner(owner))
             if fam == 'red':
@@ -599,9 +615,13 @@ def gen_kernel_module(kernel):
     k = KERNELS[kernel]
     fam = k['fam']
     shapes = FLAT_TASK_SHAPES if k['kind'] == 'FLF' else TASK_SHAPES
-    body = ['', '#[cfg(kani)]', 'mod vk {', '    use super::*;', '    use crate::core::verif_kani::*;', '    use orx_pinned_vec::PinnedVec as _;', '    use crate::Params;', TASK_COMMON]
-    keyexpr = 'i' if k.get('key', 'pos') == 'pos' else '(i, q)'
-    body.append(_fill(TASK_TEMPLATES[fam], f0=k['f0'], kind=k['kind'], keyexpr=keyexpr))
+    # flat_map inner iterators: up to 2 elements where the inner position matters (ordered collect), up to 1 for the
+    # count / reduce / find / collect_x kernels (keeps the flat_map code path, halves the CBMC cost)
+    ltmax = '2' if (k['kind'] == 'FLF' and fam == 'col') else '1'
+    ltnote = 'inner iterators of the symbolic flat_map closure yield at most %s element(s) in this kernel\'s harnesses' % ltmax
+    body = ['', '#[cfg(kani)]', 'mod vk {', '    use super::*;', '    use crate::core::verif_kani::*;', '    use orx_pinned_vec::PinnedVec as _;', '    use crate::Params;', _fill(TASK_COMMON, ltmax=ltmax, ltnote=ltnote)]
+    keyexpr = 'keys[g].0' if k.get('key', 'pos') == 'pos' else 'keys[g]'
+    body.append(_fill(TASK_TEMPLATES[fam], f0=k['f0'], kind=k['kind'], keyexpr=keyexpr, maxout=('6' if (k['kind'] == 'FLF' and fam == 'col') else '3')))
     for (n, c, mine, tier) in shapes:
         if fam == 'red' and (n, c, mine) == (3, 2, (True, True)):
             tier = 'quick'  # a worker that holds a partial result and then pulls another chunk (possibly without survivors)
@@ -612,11 +632,16 @@ def gen_kernel_module(kernel):
         for op, t2 in ops:
             name = 'k_task_%s_n%dc%d_m%s%s' % (kernel, n, c, _mname(mine), ('_' + op.lower()) if op else '')
             nm = sum(1 for i in range(n) if mine[i // c])
-            unwind = max(n, (2 * nm) if k['kind'] == 'FLF' else nm, 2) + 2
+            unwind = max(n, (2 * nm) if (k['kind'] == 'FLF' and fam == 'col') else nm, 2) + 2
             call = 'check_task(%d, %d, %s%s);' % (n, c, _mask(mine), (', Op::%s' % op) if op else '')
             body.append('    #[kani::proof]\n    #[kani::unwind(%d)]\n    fn %s() { %s }\n' % (unwind, name, call))
             nmine = sum(1 for i in range(n) if mine[i // c])
             if kernel == 'flatmap_fil_col_x':
+                t2 = 'thorough'
+            # measured: reading back the collected (key, value) pairs of the filter_map / flat_map collect tasks sends
+            # CBMC's post-processing beyond 15 GB / 10 min even for 1-3 elements (the map+filter twin takes 16-42 s);
+            # these harnesses are generated but optional (thorough tier, resource limits only degrade coverage)
+            if kernel in ('filtermap_fil_col', 'flatmap_fil_col') or (kernel == 'filtermap_fil_col_x' and c != 1):
                 t2 = 'thorough'
             HARNESSES[name] = dict(kernel=kernel, family='task_' + fam, props=FAM_PROPS[fam], tier=t2,
                                    bounded=True, path='core::%s::vk::%s' % (kernel, name),
